@@ -64,6 +64,22 @@ class World:
                 tx = interp.deref_all(args[0])
                 self.trace.append(('reply', tx[1] if tx and tx[0] == 'otx' else tx, args[1]))
                 return ok(UNIT)
+        if 'FuturesUnordered' in name or 'FuturesOrdered' in name:
+            if seg in ('new', 'default'):
+                return ('futs', [])
+            a0 = interp.deref_all(args[0]) if args else None
+            if a0 is not None and a0[0] == 'futs':
+                if seg in ('push', 'push_back'):
+                    a0[1].append(args[1])
+                    return UNIT
+                if seg == 'len':
+                    return ('int', len(a0[1]))
+                if seg == 'is_empty':
+                    return mk_bool(not a0[1])
+        if name.endswith('StreamExt::next') and args:
+            a0 = interp.deref_all(args[0])
+            if a0 is not None and a0[0] == 'futs':
+                return ('future', 'stream-next', a0)
         if name in ('tokio::task::spawn::spawn', 'tokio::task::spawn', 'tokio::spawn', 'tokio::task::spawn::spawn_local', 'tokio::runtime::handle::Handle::spawn'):
             # a detached task: whatever it does happens after (and independently of) the handler's own return
             self.trace.append(('spawned-detached',))
@@ -100,6 +116,18 @@ class World:
             return UNIT
         if kind == 'ready':
             return f[2]
+        if kind == 'stream-next':
+            futs = f[2][1]
+            if not futs:
+                return mk_option(None)
+            nxt = futs.pop(0)
+            nv = interp.deref_all(nxt)
+            if nv is not None and nv[0] == 'future':
+                return mk_option(self.poll(interp, None, nv))
+            if nv is not None and nv[0] == 'closure':
+                r = interp.poll_coroutine(('ref', Cell(nv)), 0)
+                return mk_option(r[3][0].v)
+            raise Unmodelled('a stream of %r' % (nv[0] if nv else None,))
         return None
 
 
@@ -146,9 +174,12 @@ def upvar_types(body):
     return out
 
 
-def run_coroutine(facts, body, upvars, world, order=None, choices=()):
+def run_coroutine(facts, body, upvars, world, order=None, choices=(), symbolic_len=False, callable_hook=None, unknown_call=None):
     it = Interp(facts, order or Order({}), opaque_call=world.call)
     it.poll_hook = world.poll
+    it.symbolic_len = symbolic_len
+    it.callable_hook = callable_hook
+    it.unknown_call = unknown_call
     it.choices = list(choices)
     n = max(upvars) + 1 if upvars else 0
     state = ('closure', body.defp, [Cell(upvars.get(i, ('opaque', 'upvar%d' % i))) for i in range(n)])
